@@ -107,7 +107,7 @@ pub fn pick(w: &[u8; NOPS], code: u8) -> usize {
 
 #[inline]
 fn addr<T>(r: &T) -> usize {
-    r as *const T as usize
+    tl::addr_of(r)
 }
 
 /// Source iterator that counts pulls and ticks the fuse.
@@ -392,6 +392,10 @@ where
                 }
                 cx.chk(p_leak, ok, "leak", || msg);
             }
+        }
+        {
+            let mis = tl::take_misaligned();
+            self.cx.chk(P_ADDR.and(Prop::C02).and(Prop::C17), mis == 0, "alignment", || format!("{mis} reference(s) handed out by the library are not aligned for their type"));
         }
         if malformed && !liar && !self.cx.failed() {
             // broken container, and the armed property does not own that for this operation:
